@@ -455,7 +455,7 @@ class Authorization(Endpoint):
             token.expires_at = utc_time_sans_frac() + _exp_in
 
         _mngr = self.upstream_get("context").session_manager
-        _mngr.set(_mngr.unpack_session_key(session_id), grant)
+        _mngr.set(_mngr.decrypt_session_id(session_id), grant)
 
         return token
 
